@@ -43,6 +43,10 @@ pub fn parse(raw: &[u8]) -> Result<IndexMap<String, Vec<u8>>> {
         cursor.set_position(entry.name_address as u64);
         let name = cursor.read_shift_jis_string()?;
         cursor.set_position(entry.file_address as u64);
+        // Reject an entry that does not fit in the input before sizing a buffer by it.
+        if entry.file_address as u64 + entry.file_size_unpadded as u64 > raw.len() as u64 {
+            return Err(crate::ArchiveError::ArchiveTooSmall);
+        }
         let mut contents = vec![0; entry.file_size_unpadded as usize];
         cursor.read_exact(&mut contents)?;
         entries.insert(name, contents);
